@@ -6,8 +6,10 @@
       internal/delivery/lmtp/server.go  Server.acceptConnections, handleConnection, Shutdown
       internal/sasl/server.go           Server.acceptConnections, handleConnection, Shutdown
       internal/delivery/lmtp/session.go handleDATA (deliver to all, then one reply per recipient)
-    lmtp.Shutdown: close(s.shutdown) (a second call closes a closed channel and
-    panics), closes the listeners, returns WITHOUT waiting for sessions.
+    lmtp.Shutdown: closes s.shutdown through a sync.Once (fix C20-3; it used to
+    panic on the second call: [OShutPanic] / [panicked] are kept for the
+    regression example only and are unreachable), closes the listeners, returns
+    WITHOUT waiting for sessions.
     sasl.Shutdown: sync.Once; closes, then wg.Wait() for every connection.
     Abstracted: listener.Accept returns an error once the listener is closed
     (Go net package), so the accept loops leave. No proofs here. *)
@@ -47,7 +49,7 @@ Definition sstep_srv (k : svc) (s : srv) (e : sev) : srv * list sout :=
       match k with
       | SvcLMTP =>
           if chan_closed s
-          then (mk_srv (listening s) true (inflight s) (waiting s) true, [OShutPanic])
+          then (s, [OShutReturned])                                        (* shutdownOnce; closing closed listeners is ignored *)
           else (mk_srv false true (inflight s) false false, [OShutReturned])
       | SvcSASL =>
           if chan_closed s
